@@ -137,10 +137,7 @@ func (mw *Middleware) Wrap(next dnsserver.Handler) (wrapped dnsserver.Handler) {
 		}
 
 		remoteIP := raddr.Addr()
-		loc, ecs, err := mw.location(ctx, req, remoteIP)
-		if err != nil {
-			return mw.processLocationErr(ctx, rw, req, err)
-		}
+		loc, ecs, locErr := mw.location(ctx, req, remoteIP)
 
 		ri := mw.newRequestInfo(ctx, req, rw.LocalAddr(), raddr)
 		defer mw.pool.Put(ri)
@@ -156,6 +153,12 @@ func (mw *Middleware) Wrap(next dnsserver.Handler) (wrapped dnsserver.Handler) {
 
 		if mw.isBlockedByAccess(ctx, ri, req, raddr) {
 			return nil
+		}
+
+		if locErr != nil {
+			// Only respond to a malformed ECS option once the access settings
+			// have let the request through:  blocked clients get no response.
+			return mw.processLocationErr(ctx, rw, req, locErr)
 		}
 
 		ctx = agd.ContextWithRequestInfo(ctx, ri)
